@@ -477,6 +477,35 @@ static void op_grant_deny(std::mt19937_64& rng, bool thorough)
     }
     ev.finish(outc, ab.zones_ok(), effect, dst >= 0 ? dst : 8);
   }
+  // the same with an allocator (sandbox code!) that hands out a block whose LAST element starts
+  // inside the region and ends beyond it: the copy into it must not proceed
+  for (auto ac : { std::pair<long, long>{ SIZE - 4, 1 }, { SIZE - 7, 1 }, { SIZE - 8, 1 }, { SIZE - 12, 2 }, { SIZE - 16, 2 } }) {
+    const long at = ac.first, cnt = ac.second, nbytes = 8 * ac.second;
+    fill(rng);
+    AppBuf ab(16);
+    snap();
+    Ev ev("copy_memory_or_grant_access", "double/allocator-at-the-end");
+    bool copied = false;
+    const char* got = nullptr;
+    sb->get_sandbox_impl()->malloc_override = true;
+    sb->get_sandbox_impl()->malloc_override_val = (Sbx::T_PointerType)at;
+    const char* r = guarded([&] {
+      auto t = copy_memory_or_grant_access(*sb, (double*)ab.data(), (size_t)cnt, false, copied);
+      got = (const char*)t.UNSAFE_unverified();
+    });
+    sb->get_sandbox_impl()->malloc_override = false;
+    ev.range("sbx", at, nbytes);
+    ev.range("app", 0, nbytes);
+    const char* outc = r;
+    if (std::strcmp(r, "ok") == 0 && got == nullptr) {
+      outc = "null";
+    }
+    bool effect = true;
+    if (std::strcmp(outc, "ok") == 0 && at + nbytes <= SIZE) {
+      effect = copied && std::memcmp(MEM + at, ab.data(), nbytes) == 0;
+    }
+    ev.finish(outc, ab.zones_ok(), effect, at);
+  }
   // copy_memory_or_deny_access: sandbox buffer -> freshly allocated application memory
   for (long st : STARTS) {
     for (W x : extents(thorough)) {
